@@ -4,6 +4,7 @@ import (
 	"fmt"
 	"go/constant"
 	"go/types"
+	"os"
 	"strings"
 
 	"golang.org/x/tools/go/ssa"
@@ -23,6 +24,8 @@ type SpecCtx struct {
 	nbind int
 	useFrameVars bool
 	patCands *[]T
+	// hints: inside a quantifier, the terms evaluated so far that mention no bound variable (evalQuant)
+	hints *[]T
 }
 
 func (f *Frame) specCtxAt(st *State, b *ssa.BasicBlock, idx int) *SpecCtx {
@@ -202,7 +205,63 @@ func (c *SpecCtx) withState(st *State) *SpecCtx {
 	return &d
 }
 
+// eval evaluates e; inside a quantifier it also notes the terms that do not depend on any bound
+// variable (see evalQuant).
 func (c *SpecCtx) eval(e Expr) *V {
+	v := c.eval0(e)
+	if c.hints != nil && v != nil && v.LV == nil {
+		switch {
+		case v.Sl != nil:
+			c.noteGround(v.Sl.Arr, v.Sl.Off, v.Sl.Len)
+		case v.F == nil:
+			c.noteGround(v.T)
+		}
+	}
+	return v
+}
+
+func (c *SpecCtx) noteGround(ts ...T) {
+	for _, t := range ts {
+		if (t.Sort != SInt && t.Sort != SStr) || !strings.HasPrefix(t.S, "(select ") || strings.Contains(t.S, "!b") || len(*c.hints) >= 64 {
+			continue
+		}
+		dup := false
+		for _, h := range *c.hints {
+			if h.S == t.S {
+				dup = true
+			}
+		}
+		if !dup {
+			*c.hints = append(*c.hints, t)
+		}
+	}
+}
+
+// groundHints wraps an outermost quantified formula q: (=> (and (ground!S t) ...) q) for the heap reads t
+// inside q that depend on no bound variable. ground!S is true everywhere (axiom, triggered by its own
+// application), so the formula is equivalent to q; the point is that the terms t now occur outside the
+// binder, where the solver's E-graph holds them from the start: a read-over-write step about t (the
+// object read is not the one just stored to) is then available to E-matching, which never looks under
+// a binder for ground terms. Without this a goal "exists j :: ... p.f ..." over a heap with a pending
+// store was proved or not depending on the random seed.
+func (c *SpecCtx) groundHints(q T, hs []T) T {
+	if len(hs) == 0 {
+		return q
+	}
+	var atoms []string
+	for _, h := range hs {
+		name := "ground!" + strings.NewReplacer("(", "", ")", "", " ", "_").Replace(string(h.Sort))
+		fn := c.u.declareFun(name, []Sort{h.Sort}, SBool)
+		if !c.u.declared["ax:"+name] {
+			c.u.declared["ax:"+name] = true
+			c.u.emitDecl(fmt.Sprintf("(assert (forall ((x %s)) (! (%s x) :pattern ((%s x)))))", h.Sort, fn, fn))
+		}
+		atoms = append(atoms, fmt.Sprintf("(%s %s)", fn, h.S))
+	}
+	return T{fmt.Sprintf("(=> (and %s true) %s)", strings.Join(atoms, " "), q.S), SBool}
+}
+
+func (c *SpecCtx) eval0(e Expr) *V {
 	u := c.u
 	switch x := e.(type) {
 	case *EIdent:
@@ -469,7 +528,8 @@ func (c *SpecCtx) evalIdx(x *EIdx) *V {
 		et := a.Typ.Underlying().(*types.Slice).Elem()
 		i := c.eval(x.I).T
 		return u.loadLeaves(c.st, et, func(l Leaf) T {
-			return sel(sel(u.heapGet(c.st, "E:"+typeKey(et)+l.Path, arrSort(SInt, arrSort(SInt, l.Sort))), a.Sl.Arr), u.sidx(a.Sl.Off, i))
+			row := sel(u.heapGet(c.st, "E:"+typeKey(et)+l.Path, arrSort(SInt, arrSort(SInt, l.Sort))), a.Sl.Arr)
+			return sel(row, u.sidx(a.Sl.Off, i))
 		})
 	}
 	switch t := a.Typ.Underlying().(type) {
@@ -518,6 +578,18 @@ func (c *SpecCtx) evalQuant(x *EQuant) *V {
 	} else {
 		d.patCands = nil
 	}
+	outermost := c.hints == nil && os.Getenv("GOVC_NO_GROUNDHINTS") == ""
+	if outermost {
+		d.hints = &[]T{}
+		r := c.evalQuantIn(&d, x, decls, &cands)
+		return boolV(c.groundHints(r.T, *d.hints))
+	}
+	return c.evalQuantIn(&d, x, decls, &cands)
+}
+
+func (c *SpecCtx) evalQuantIn(dp *SpecCtx, x *EQuant, decls []string, candsp *[]T) *V {
+	u := c.u
+	d := *dp
 	body := d.evalBool(x.Body)
 	q := "forall"
 	if !x.Forall {
@@ -546,6 +618,7 @@ func (c *SpecCtx) evalQuant(x *EQuant) *V {
 	}
 	// trigger inference: membership atoms `k in m` whose terms mention bound variables of this
 	// quantifier only (no inner-bound ones) and together cover all of them
+	cands := *candsp
 	if x.Forall && len(cands) > 0 && u.eng.InferPatterns {
 		var names []string
 		for _, dcl := range decls {
